@@ -240,6 +240,118 @@ def factor_expr(node, env):
     raise AnalysisError(f"factor expression outside the interpreted fragment: {unparse(node)}")
 
 
+
+# ------------------------------------------------------------------------------------------ operand order of products (abstract run of the dunder methods)
+def product_order_rule(chk, src):
+    """Op / OpSum / plain list products keep the left operand on the left: (sum_l L_l)(sum_r R_r) = sum_{l,r} L_l R_r as ordered words"""
+    from ..syminterp import SymInterp, Sym
+    f = {q: src.func(OP, q) for q in ("Op.__mul__", "Op.__rmul__", "OpSum.__mul__", "OpSum.__rmul__")}
+    it = SymInterp(src, None, {})
+    it.max_depth = 30
+
+    class Word(Sym):
+        """an operator: ordered word of elementary operator names and a scalar factor"""
+        def __init__(self, letters, factor=()):
+            super().__init__("*".join(letters) + ("" if not factor else "[" + "*".join(factor) + "]"))
+            self.letters, self.fac = tuple(letters), tuple(sorted(factor))
+            self.symbol, self.dofs, self.qn_list = ("symbol", self.letters), ("dofs", self.letters), ("qn", self.letters)
+
+        @property
+        def factor(self):
+            return Fac(self.fac)
+
+        def __mul__(self, o):
+            return it.call_function(f["Op.__mul__"], [self, o])
+
+        def __rmul__(self, o):
+            return it.call_function(f["Op.__rmul__"], [self, o])
+
+    class Fac:
+        def __init__(self, names):
+            self.names = tuple(sorted(names))
+
+        def __mul__(self, o):
+            return Fac(self.names + (o.names if isinstance(o, Fac) else (repr(o),)))
+
+        __rmul__ = __mul__
+
+    class Scal:
+        def __init__(self, name):
+            self.name = name
+
+        def __repr__(self):
+            return self.name
+
+    class Sum(list):
+        def __mul__(self, o):
+            return it.call_function(f["OpSum.__mul__"], [self, o])
+
+        def __rmul__(self, o):
+            return it.call_function(f["OpSum.__rmul__"], [self, o])
+
+    def isinst(x, t):
+        ts = t if isinstance(t, tuple) else (t,)
+        for tt in ts:
+            if tt == "Op" and isinstance(x, Word):
+                return True
+            if tt is list and isinstance(x, list):
+                return True
+            if tt in (int, float, complex) and isinstance(x, Scal):
+                return True
+        return False
+
+    def op_ctor(symbol, dofs, factor=None, qn=None):
+        return Word(symbol[1], factor.names if isinstance(factor, Fac) else ())
+
+    opcls = Sym("Op", product=lambda ops: Word(tuple(l for o in ops for l in o.letters), tuple(x for o in ops for x in o.fac)))
+    it.builtins.update({"isinstance": isinst, "Op": "Op", "OpSum": lambda x=(): Sum(x), "np": Sym("np", generic="np.generic"), "TypeError": lambda *a: Exception("TypeError"),
+                        "super": lambda: Sym("super", __mul__=lambda o: (_ for _ in ()).throw(AnalysisError("list repetition branch reached")),
+                                             __rmul__=lambda o: (_ for _ in ()).throw(AnalysisError("list repetition branch reached")))})
+    # `Op` is used both as a class in isinstance and as a constructor / namespace: a callable symbol that compares equal to the tag
+    class OpTag(Sym):
+        def __call__(self, *a, **k):
+            return op_ctor(*a, **k)
+
+        def __eq__(self, o):
+            return o == "Op" or o is self
+
+        def __hash__(self):
+            return hash("Op")
+    tag = OpTag("Op")
+    tag.__dict__["product"] = opcls.product
+    it.builtins["Op"] = tag
+    a, b, c, d = (Word((x,)) for x in "abcd")
+    k = Scal("k")
+
+    def words(x):
+        xs = x if isinstance(x, list) else [x]
+        return sorted((w.letters, w.fac) for w in xs)
+
+    def expect(ls, rs, fac=()):
+        return sorted((l.letters + r.letters, tuple(sorted(fac))) for l in ls for r in rs)
+    cases = [("Op * Op", lambda: a * b, expect([a], [b])),
+             ("Op * list", lambda: a * [b, c], expect([a], [b, c])),
+             ("list * Op", lambda: [a, b] * c, expect([a, b], [c])),
+             ("OpSum * Op", lambda: Sum([a, b]) * c, expect([a, b], [c])),
+             ("Op * OpSum", lambda: a * Sum([b, c]), expect([a], [b, c])),
+             ("OpSum * OpSum", lambda: Sum([a, b]) * Sum([c, d]), expect([a, b], [c, d])),
+             ("OpSum * list", lambda: Sum([a, b]) * [c, d], expect([a, b], [c, d])),
+             ("scalar * Op", lambda: it.call_function(f["Op.__rmul__"], [a, k]), sorted([(("a",), ("k",))])),
+             ("Op * scalar", lambda: a * k, sorted([(("a",), ("k",))])),
+             ("scalar * OpSum", lambda: it.call_function(f["OpSum.__rmul__"], [Sum([a, b]), k]), sorted([(("a",), ("k",)), (("b",), ("k",))])),
+             ("OpSum * scalar", lambda: Sum([a, b]) * k, sorted([(("a",), ("k",)), (("b",), ("k",))]))]
+    for name, run_, want in cases:
+        try:
+            got = words(run_())
+            err = None
+        except Exception as e:      # TypeError raised by the interpreted code, recursion ...
+            got, err = None, f"{type(e).__name__}: {e}"
+        chk.ob("operand-order", name, got == want, f["Op.__mul__"].where, err or [".".join(w) + ("" if not fc else "*" + "*".join(fc)) for w, fc in got],
+               [".".join(w) + ("" if not fc else "*" + "*".join(fc)) for w, fc in want], line=f["Op.__mul__"].node.lineno,
+               detail=f"{name}: every term of the product must be (left operand's term)(right operand's term) in this order; a reversed pair is a different operator whenever the two "
+                      "factors act on a common degree of freedom and do not commute")
+
+
 def run(chk):
     import sympy as sp
     src = chk.src
@@ -257,6 +369,8 @@ def run(chk):
     chk.rule("array-truth", "a quantum-number ndarray compared with ==/!=/< (or used bare) in a boolean context is reduced by np.all/np.any", 2)
     chk.rule("qn-carry", "Op(...) whose symbol derives from an existing Op's symbol/split_symbol passes an explicit qn", 9)
     chk.rule("product-order", "the four aggregations of Op.product iterate the same list in the same direction, and Op(...) receives them in (symbol, dof, factor, qn) positions", 2)
+    chk.rule("operand-order", "abstract run of Op / OpSum / list multiplication: operands keep their order in every term", 8)
+    product_order_rule(chk, src)
     chk.rule("factor-algebra", "factor of -a is -f(a); of a*s is f(a)*s; of prod is the product; of merged terms is the sum; a/s is a*(1/s)", 5)
 
     opc = src.cls(OP, "Op")
